@@ -124,6 +124,8 @@ def run_case(case, ctx):
         return _run_alias(case, ctx)
     if case.get("sizeof_history"):
         return _run_sizeof_history(case, ctx)
+    if case.get("dynlayout"):
+        return _run_dynlayout(case, ctx)
     cs = common.load(case)
     _check_layout(case, ctx, cs, "Root", "SizeProbe")
 
@@ -181,6 +183,52 @@ def _check_layout(case, ctx, cs, rootname, probe, stats=True):
     if padded or feats & {"nested-struct", "nested-union", "array:of-struct"}:
         ctx.mark_nontrivial([case["defs"], case["cfg"]])
         ctx.sample(common.describe(case, {"size": size, "offsets": sem.layout(root)["offs"]}), "ctypes" if ct is not None else "ref")
+
+
+@st.composite
+def dynlayout_case(draw):
+    """Structures with dynamically sized members (nested, in arrays, first / middle / last): the alignment of a structure
+    is that of its most aligned member whether or not that member has a fixed size, members in front of the first
+    dynamically sized one have C offsets, and a nested structure is placed according to ITS alignment."""
+    o = gens.opts(dynamic=True, bits=draw(st.integers(0, 3)) == 0, void=False, max_depth=3, max_fields=5, eof=False, floats=True, array_weight=True)
+    d = draw(gens.definition(o))
+    cfg = draw(gens.config())
+    cfg["align"] = draw(st.integers(0, 4)) != 0
+    return {"defs": d["defs"], "root": "Root", "cfg": cfg, "dynlayout": True}
+
+
+def _run_dynlayout(case, ctx):
+    cs = common.load(case)
+    sem = refsem.Sem(case["defs"], case["cfg"])
+    aligned = case["cfg"]["align"]
+    ROOT = {"k": "ref", "n": "Root"}
+    root = sem.res(ROOT)
+    out = []
+    _compare_layout(sem, root, cs.Root, None, "Root", aligned, out)
+    for d in case["defs"]:
+        if d["k"] == "structdef" and d["n"] != "Root":
+            _compare_layout(sem, d["t"], getattr(cs, d["n"]), None, d["n"], aligned, out)
+    if out:
+        raise Violation("layout-differs", f"{out[:6]}: {common.describe(case)}")
+    feats = common.model_features(sem, ROOT)
+    ctx.count("dynlayout:aligned" if aligned else "dynlayout:packed")
+    if "dynamic" in feats:
+        ctx.count("dynlayout:dynamic-root")
+        # the most aligned member of some structure is a dynamically sized one
+        def widest_is_dynamic(t):
+            t = sem.res(t)
+            if t["k"] == "a":
+                return widest_is_dynamic(t["t"])
+            if t["k"] != "st":
+                return False
+            al = [(sem.align(f["t"]), sem.size(f["t"]) is None) for f in t["fields"]]
+            top = max((a for a, _ in al), default=1)
+            return (top > 1 and all(dyn for a, dyn in al if a == top)) or any(widest_is_dynamic(f["t"]) for f in t["fields"])
+
+        if aligned and widest_is_dynamic(root):
+            ctx.count("dynlayout:widest-alignment-only-from-dynamic-member")
+            ctx.mark_nontrivial([case["defs"], case["cfg"]])
+            ctx.sample(common.describe(case, {"alignment": sem.layout(root)["align"], "offsets": sem.layout(root)["offs"]}), "dynlayout")
 
 
 KINDS = [
@@ -472,6 +520,7 @@ def stages(tier):
         EnumStage("sequences", seq_cases(3 if q else 4), shards=6 if q else 16, scope=f"all sequences of <= {3 if q else 4} fields over 12 base kinds x {{packed, aligned}}"),
         HypStage("nested", fixed_case, examples=500 if q else 10000, shards=8 if q else 16),
         HypStage("reuse", reuse_case, examples=300 if q else 6000, shards=4 if q else 8),
+        HypStage("dynamic-layout", dynlayout_case, examples=400 if q else 6000, shards=4 if q else 8),
         HypStage("sizeof-history", sizeof_history_case, examples=150 if q else 1500, shards=2),
         EnumStage("aliases", alias_cases, shards=2, scope="every fixed-width name of the built-in typedef table x {packed, aligned}: member, array element, sizeof"),
     ]
